@@ -169,7 +169,7 @@ def part_kdf(chk, drv, runner, quick):
     rng = chk.rng
     lines, meta = [], []
     # compute_data_key
-    for _ in range(60 if quick else 1500):
+    for _ in range(60 if quick else 3000):
         V = rng.choice([1, 2, 4, 5])
         klen = 32 if V == 5 else rng.choice([5, 16, 16, 7, 13])
         objid = rng.choice([1, 2, 255, 256, 65535, 65536, 0xFFFFFF, 0x1000000, 0x12345678, rng.randrange(1, 1 << 24)])
@@ -181,7 +181,7 @@ def part_kdf(chk, drv, runner, quick):
         meta.append(("datakey", "isokey %d %d %s %d %d" % (6 if V == 5 else 4, aes, hexs(key), objid, gen) if (not aes or klen >= 16) else None))
     # O / U / key for V < 5 (the three schemes the writer uses, and other key lengths through the API)
     ou_cases = []
-    n_ou = 16 if quick else 1500
+    n_ou = 16 if quick else 120
     for k in range(n_ou):
         V, R, kl = rng.choice(SCHEMES_V4)
         supported = True
@@ -196,7 +196,7 @@ def part_kdf(chk, drv, runner, quick):
         ou_cases.append(dict(V=V, R=R, kl=kl, P=P, em=em, id1=id1, u=u, o=o, supported=supported))
         lines.append("ou %d %d %d %d %d %s %s %s" % (V, R, kl, P, em, hexs(id1), hexs(u), hexs(o))); meta.append(("ou", k))
     v5_cases = []
-    n_v5 = (8, 1) if quick else (150, 16)      # (R5, R6)
+    n_v5 = (8, 1) if quick else (60, 3)      # (R5, R6)
     for R, cnt in ((5, n_v5[0]), (6, n_v5[1])):
         for k in range(cnt):
             P = U32(rng.choice([-4, -1, -3904, rng.randrange(-(1 << 31), 1 << 31)]))
@@ -512,14 +512,14 @@ def rand_perm_tokens(rng, R, allow_modify=True):
     return toks
 
 
-def e2e_case(rng, idx, scheme, mode, pwkinds=None, perm=None, big=False):
+def e2e_case(rng, idx, scheme, mode, pwkinds=None, perm=None, big=False, pwmode="bytes"):
     bits, extra, R, aes, clear = E2E_SCHEMES[scheme]
     kinds = pwkinds or (rng.choice(PW_V4 if R < 5 else PW_V5), rng.choice(PW_V4 if R < 5 else PW_V5))
     u, o = rpass(rng, kinds[0]), rpass(rng, kinds[1])
     if u == o and u:
         o = o + b"!"
     return dict(kind="e2e", idx=idx, docseed=rng.randrange(1 << 30), scheme=scheme, mode=mode, user=u.hex(), owner=o.hex(),
-                perm=perm if perm is not None else rand_perm_tokens(rng, R), big=big)
+                perm=perm if perm is not None else rand_perm_tokens(rng, R), big=big, pwmode=pwmode)
 
 
 def run_e2e(chk, cases, runner, work):
@@ -535,8 +535,8 @@ def run_e2e(chk, cases, runner, work):
         with open(inp, "wb") as f:
             f.write(src.bytes)
         u, o = bytes.fromhex(c["user"]), bytes.fromhex(c["owner"])
-        args = ["--static-id", "--static-aes-iv", "--password-mode=bytes"] + MODES[c["mode"]] + \
-               ["--encrypt", u, o, str(bits)] + extra + cli_of_tokens(c["perm"]) + \
+        args = ["--static-id", "--static-aes-iv", "--password-mode=" + c.get("pwmode", "bytes")] + MODES[c["mode"]] + \
+               ["--encrypt", b"--user-password=" + u, b"--owner-password=" + o, "--bits=%d" % bits] + extra + cli_of_tokens(c["perm"]) + \
                (["--allow-insecure"] if (bits == 256 and u and not o) else []) + ["--"] + [inp, outp]
         if not aes:
             args = ["--allow-weak-crypto"] + args
@@ -562,6 +562,10 @@ def run_e2e(chk, cases, runner, work):
             chk.violation({"kind": "property-fails-on-implementation", "part": "e2e", "what": "output not readable by the strict reader: %r" % e, "case": desc})
             continue
         u, o = bytes.fromhex(c["user"]), bytes.fromhex(c["owner"])
+        if c.get("pwmode") == "auto" and info["R"] < 5:
+            # ISO 32000-1 7.6.3.3: for R <= 4 the password is in PDFDocEncoding; the CLI converts a UTF-8 password
+            # (the characters used here are the same in PDFDocEncoding and ISO-8859-1)
+            u, o = u.decode("utf-8").encode("latin-1"), o.decode("utf-8").encode("latin-1")
         eff_owner = o if (o or info["R"] >= 5) else u
         f = dict(c=c, desc=desc, src=src, data=data, info=info, u=u, o=o, eff_owner=eff_owner, keys={})
         files.append(f)
@@ -707,6 +711,34 @@ def judge_file(chk, f, runner):
             found[(kind, og, path)] = pt
             if pt == b"":
                 empties += 1
+    # per class of leaf: was it written encrypted or in the clear (tie of Crypto/EncWriter.v)
+    allmk = [m for m in list(src.strings) + list(src.streams) if len(m) >= 8]
+    tally = f.setdefault("leaf_tally", set())
+    em = 0 if clear else 1
+    for kind, og, path, ct, pt in leaves:
+        o = info["objs"].get(og, (None, 0))[0]
+        if kind == "ostring":
+            cls, raw, dec = "ostring", pt, None
+        elif kind == "string":
+            cls = ("metadict" if og == meta_og else "sigcontents" if (isinstance(o, dict) and o.get(b"Type") == Name(b"Sig") and path == (b"Contents",))
+                   else "streamdict" if isinstance(o, Stream) else "string")
+            raw, dec = ct, pt
+        else:
+            cls = "metastream" if og == meta_og else "objstm" if o.d.get(b"Type") == Name(b"ObjStm") else "stream"
+
+            def unf(x):
+                try:
+                    return rd.unfilter(o.d, x) if x is not None else None
+                except Exception:
+                    return None
+            raw, dec = unf(ct), unf(pt)
+            if cls == "objstm":
+                tally.add((em, cls, 1 if dec is not None else 0))
+                continue
+        if raw is not None and any(m in raw for m in allmk):
+            tally.add((em, cls, 0))
+        elif dec is not None and any(m in dec for m in allmk):
+            tally.add((em, cls, 1))
     undec_meta = [x for x in undec if clear and x[0] == "string" and x[1] == meta_og]
     undec = [x for x in undec if x not in undec_meta]
     if undec_meta:
@@ -755,7 +787,7 @@ def part_e2e(chk, drv, runner, quick):
         plan = [(s, modes[i % len(modes)]) for i, s in enumerate(schemes) if s != "R6-clear"]
         plan += [("R3", "objstm"), ("R4aes-clear", "objstm"), ("R5", "lin-objstm")]
     else:
-        plan = [(s, m) for s in schemes for m in modes for _ in range(2 if s.startswith("R6") else 6)]
+        plan = [(s, m) for s in schemes for m in modes for _ in range(1 if s.startswith("R6") else 3)]
     for s, m in plan:
         cases.append(e2e_case(rng, idx, s, m, big=(idx % 7 == 3)))
         idx += 1
@@ -764,10 +796,25 @@ def part_e2e(chk, drv, runner, quick):
         cases.append(e2e_case(rng, idx, s, "plain", pwkinds=kinds)); idx += 1
     for s in (("R2", "R4aes") if quick else ("R2", "R3", "R4rc4", "R4aes")):
         cases.append(e2e_case(rng, idx, s, "plain", pwkinds=("33", "40"))); idx += 1
+    # Unicode passwords given as UTF-8 on the command line (password-mode auto): PDFDocEncoding for R <= 4, UTF-8 for R >= 5
+    for sch in (("R3", "R5") if quick else ("R2", "R3", "R4aes", "R5", "R6")):
+        c = e2e_case(rng, idx, sch, "plain", pwmode="auto")
+        c["user"], c["owner"] = "pässwörd".encode("utf-8").hex(), "Ünïcödé-öwner".encode("utf-8").hex()
+        cases.append(c); idx += 1
     # order-sensitive permission options (--modify with a granular option)
     for toks in [["asm=n", "mod=annotate"], ["mod=none", "asm=y"], ["mod=form", "ann=n"], ["mod=annotate", "asm=n"]][:2 if quick else 4]:
         cases.append(e2e_case(rng, idx, "R4aes", "plain", perm=toks)); idx += 1
     n, files = run_e2e(chk, cases, runner, work)
+    tally = set()
+    for f in files:
+        tally |= f.get("leaf_tally", set())
+    tl = sorted(tally)
+    lm = common.run_lines(runner, ["leafenc %d %s" % (em, cls) for em, cls, st in tl])
+    for (em, cls, st), m in zip(tl, lm):
+        if m.split()[0] != str(st):
+            chk.violation({"kind": "correspondence-broken", "correspondence": "corr:C05:leaf-flags",
+                           "first_case": {"encrypt_metadata": em, "leaf_class": cls, "observed_encrypted": st}, "model": m}, no_input=True)
+    chk.count("e2e-leaf-classes", len(tl), set(tl), samples=[{"observed (EncryptMetadata, class, encrypted)": [list(x) for x in tl]}])
     chk.count("e2e", n, set((c["scheme"], c["mode"], tuple(c["perm"])) for c in cases),
               samples=[{"case": {k: v for k, v in cases[0].items() if k != "docseed"}}])
     leaves = sum(len(f.get("leaves", ())) for f in files)
@@ -815,6 +862,61 @@ def part_e2e(chk, drv, runner, quick):
                            "implementation": want, "model": o}, no_input=True)
             break
     chk.count("e2e-OU", len(lines), set(lines))
+
+
+def part_permcli(chk, drv, runner, quick):
+    """the --encrypt permission options through the CLI (QPDFJob::EncConfig), /P read from the output"""
+    rng = chk.rng
+    work = common.workdir("C05-permcli")
+    import random
+    inp = os.path.join(work, "in.pdf")
+    with open(inp, "wb") as f:
+        f.write(pdfgen.write_classic(pdfgen.page_doc(1))[0])
+    jobs = []
+    gran = ["asm=y", "asm=n", "ann=y", "ann=n", "form=y", "form=n", "other=y", "other=n"]
+    for scheme in ("R3", "R4aes", "R5", "R6"):
+        pairs = [[m, g] for m in ["mod=" + x for x in ("all", "annotate", "form", "assembly", "none")] for g in gran]
+        pairs = pairs + [[g, m] for m, g in pairs]
+        for toks in (rng.sample(pairs, 6) if quick else pairs):
+            jobs.append((scheme, toks))
+    for k in range(40 if quick else 2500):
+        scheme = rng.choice(["R2", "R3", "R4rc4", "R4aes", "R5", "R6"])
+        toks = rand_perm_tokens(rng, E2E_SCHEMES[scheme][2])
+        if rng.random() < 0.3:
+            rng.shuffle(toks)
+        jobs.append((scheme, toks))
+
+    def runq(k):
+        scheme, toks = jobs[k]
+        bits, extra, R, aes, clear = E2E_SCHEMES[scheme]
+        outp = os.path.join(work, "o%d.pdf" % k)
+        args = ["--allow-weak-crypto", "--static-id", "--encrypt", "u", "o", str(bits)] + extra + cli_of_tokens(toks) + ["--", inp, outp]
+        rc, out, err = common.run_qpdf(args)
+        if rc != 0:
+            return None
+        data = open(outp, "rb").read()
+        os.unlink(outp)
+        m = re.search(rb"/P (-?\d+)", data)
+        return int(m.group(1)) if m else None
+    res = common.par_map(runq, list(range(len(jobs))), workers=4)
+    exp = common.run_lines(runner, ["jobp %d %d %s" % (E2E_SCHEMES[s][0], E2E_SCHEMES[s][2], ",".join(t) or "-") for s, t in jobs], shards=4)
+    tie = []
+    for (scheme, toks), got, e in zip(jobs, res, exp):
+        mp, manp = [S32(int(x)) for x in e.split()]
+        desc = {"scheme": scheme, "options": cli_of_tokens(toks), "P": got, "manual_P": manp, "model_P": mp}
+        if got is None:
+            chk.violation({"kind": "property-fails-on-implementation", "part": "perm-cli", "what": "qpdf --encrypt failed or wrote no /P", "case": desc})
+        elif got != manp:
+            order = any(t.startswith("mod=") for t in toks) and any(t.split("=")[0] in ("asm", "ann", "form", "other") for t in toks)
+            chk.violation({"kind": "property-fails-on-implementation", "part": "perm-cli", "what": "/P differs from the manual's table for the options used",
+                           "case": desc}, signature="C05:P-modify-order" if order else "")
+            if got != mp:
+                tie.append(desc)
+        elif got != mp:
+            tie.append(desc)
+    if tie:
+        chk.violation({"kind": "correspondence-broken", "correspondence": "corr:C05:job-P", "differing_cases": len(tie), "first_case": tie[0]}, no_input=True)
+    chk.count("perm-cli", len(jobs), set((s, tuple(t)) for s, t in jobs), samples=[{"case": [jobs[0][0], jobs[0][1]], "P": res[0]}])
 
 
 def part_gates(chk, drv, runner, quick):
@@ -888,7 +990,7 @@ def run(chk):
     # derived generator), then the slow parts (Algorithm 2.B in extracted code) run side by side
     import random
     base = chk.rng
-    rngs = {n: random.Random("%s/%s/%s" % (chk.pid, chk.seed, n)) for n in ("prim", "kdf", "perm", "e2e", "gates")}
+    rngs = {n: random.Random("%s/%s/%s" % (chk.pid, chk.seed, n)) for n in ("prim", "kdf", "perm", "permcli", "e2e", "gates")}
 
     class View:
         """what a part sees of the check: its own generator, shared bookkeeping"""
@@ -914,7 +1016,7 @@ def run(chk):
         chk.cov["timing_s"][name] = round(time.time() - t0, 1)
     for t in ths:
         t.start()
-    for name, part in (("prim", part_prim), ("perm", part_perm), ("gates", part_gates)):
+    for name, part in (("prim", part_prim), ("perm", part_perm), ("permcli", part_permcli), ("gates", part_gates)):
         timed_view(name, part)
     for t in ths:
         t.join()
@@ -933,4 +1035,10 @@ def replay(chk, rep):
         l = rep["first_case"]
         print("implementation:", common.run_lines(drv, [l])[0][:1000])
         print("model         :", common.run_lines(runner, [l])[0][:1000])
-    return chk.finish(ASSUMPTIONS)
+    # report without touching evidence/C05.json (a replay is not a check run)
+    for k in chk.known_hits:
+        print("KNOWN-FINDING: property=%s %s [%s]" % (chk.pid, k["what"][:200], k["id"]))
+    for rep_, no_input in chk.violations[:5]:
+        print("REPLAY-VIOLATION%s: %s" % (" (tie only)" if no_input else "", json.dumps(rep_, default=str)[:1500]))
+    print("replay: %d violation(s), %d known finding(s) observed" % (len(chk.violations), len(chk.known_hits)))
+    return 1 if chk.violations else 0
